@@ -113,7 +113,7 @@ func c16Materialise(rng *rand.Rand, sets []ref.ParamSet, base string, d c16Dir) 
 		items = append(items, item{".tmp", func() { os.WriteFile(filepath.Join(base, ".tmp"), []byte("x"), 0600) }}) //nolint:errcheck
 	case "dir-with-leftover":
 		items = append(items, item{".tmp", func() {
-			os.Mkdir(filepath.Join(base, ".tmp"), 0700)                                       //nolint:errcheck
+			os.Mkdir(filepath.Join(base, ".tmp"), 0700)                                   //nolint:errcheck
 			os.WriteFile(filepath.Join(base, ".tmp", "123456"), []byte("leftover"), 0600) //nolint:errcheck
 		}})
 	}
@@ -281,7 +281,7 @@ func c16InitOrder(R *vr.Result, rng *rand.Rand, sets []ref.ParamSet) {
 		cfg := filepath.Join(root, "store.yml")
 		for i := 0; i < n; i++ {
 			base := filepath.Join(root, fmt.Sprintf("d%d", i))
-			os.MkdirAll(base, 0700) //nolint:errcheck
+			os.MkdirAll(base, 0700)                                  //nolint:errcheck
 			os.WriteFile(cfg, []byte(ref.YAML(base, 1, sets)), 0600) //nolint:errcheck
 			d, err := store.NewDirFromConfig(cfg)
 			if err != nil {
